@@ -1,0 +1,5 @@
+//go:build !verif
+
+package fetcher
+
+func verifStep(f *Fetcher) {}
